@@ -288,6 +288,33 @@ var allowedClockUsers = map[string]string{
 	"calendar.NewSolarHalfYear":                   "constructor for the current half-year",
 	"calendar.NewSolarYear":                       "constructor for the current year",
 	"calendar.ListSolarFromBaZiBySectAndBaseYear": "search window ends at the current year",
+	"calendar.ListSolarFromBaZiBySect":            "the same search with the default base year",
+	"calendar.ListSolarFromBaZi":                  "the same search with the default school and base year",
+}
+
+// clockUser: the function itself is a declared clock user, or it is an unexported helper (or function literal)
+// every call of which sits in one.
+func clockUser(c *Ctx, name string, depth int) (string, bool) {
+	if reason, ok := allowedClockUsers[name]; ok {
+		return reason, true
+	}
+	fn := c.FuncBy[name]
+	if fn == nil || !isLocalHelper(fn) || depth > 3 {
+		return "", false
+	}
+	sites := c.callSitesOf(fn)
+	if len(sites) == 0 {
+		return "", false
+	}
+	reason := ""
+	for _, site := range sites {
+		r, ok := clockUser(c, fname(site.Parent()), depth+1)
+		if !ok {
+			return "", false
+		}
+		reason = "helper of " + fname(site.Parent()) + ": " + r
+	}
+	return reason, true
 }
 
 type detSite struct {
@@ -344,7 +371,7 @@ func r09_5(c *Ctx, r *Report) {
 		case "go":
 			r.bad(rule, "go statement in "+s.fn, c.pos(s.pos), "library starts a goroutine")
 		case "clock":
-			if reason, ok := allowedClockUsers[s.fn]; ok {
+			if reason, ok := clockUser(c, s.fn, 0); ok {
 				r.ok(rule, "time.Now in "+s.fn, c.pos(s.pos), "declared clock user: "+reason)
 			} else {
 				r.bad(rule, "time.Now in "+s.fn, c.pos(s.pos), "wall clock read outside the declared 'today' constructors: the result depends on when the call is made")
